@@ -141,9 +141,9 @@ def run(ctx):
                         else:
                             ctx.ob("R11.3", key + "/unexpected increase", False, sites=[e.site],
                                    detail="outstanding increased by %s outside transfer / reply-undo" % o.show())
-    ctx.floor("R11.1", "payout sites", n_pay, 6)
-    ctx.floor("R11.3", "escrow increases", n_inc, 5)
-    ctx.floor("R11.4", "receive paths saving REPLY_ARGS", len(saved_args), 2)
+    ctx.floor("R11.1", "payout sites", n_pay, 3)
+    ctx.floor("R11.3", "escrow increases", n_inc, 3)
+    ctx.floor("R11.4", "receive paths saving REPLY_ARGS", len(saved_args), 1)
     # reply id agreement
     undo_ids = ctx.cache.get("undo_ids", set())
     for key, rid, sites in other_ids:
